@@ -149,12 +149,24 @@ Theorem C09_order_rows_as_found_refuted :
 Proof. exact order_rows_as_found_refuted. Qed.
 Print Assumptions C09_order_rows_as_found_refuted.
 
+(* ---- the deferred reordering (repaired _orderRows) does not change what is read: relabelled, re-sorted sparse columns, rebuilt
+   heaps, compacted lazy columns read at row k what they read at the physical row of k before *)
+Theorem C09_order_rows_invisible : forall p nr mapc ra m, 0 < p ->
+  length (a_i2r m) = nr -> length (a_r2i m) = nr ->
+  (forall r, 0 <= r < Z.of_nat nr -> 0 <= pget (a_i2r m) r < Z.of_nat nr /\ pget (a_r2i m) (pget (a_i2r m) r) = r) ->
+  (forall q, 0 <= q < Z.of_nat nr -> 0 <= pget (a_r2i m) q < Z.of_nat nr /\ pget (a_i2r m) (pget (a_r2i m) q) = q) ->
+  (forall c, In (Some c) (a_cols m) -> c_ok nr c) ->
+  a_abs p nr (a_order (all_fixed ra) mapc p m) = a_abs p nr m.
+Proof. exact order_rows_invisible. Qed.
+Print Assumptions C09_order_rows_invisible.
+
+(* ---- row access: with the rows ordered, each row lists exactly the non-zero entries of that row of the dense matrix *)
+Theorem C09_rows_are_transpose : forall p nr m r, a_i2r m = idperm nr -> 0 <= r < Z.of_nat nr ->
+  (forall c, In (Some c) (a_cols m) -> c_rowview_ok c) -> a_row m r = d_row (a_abs p nr m) r.
+Proof. exact rows_are_transpose. Qed.
+Print Assumptions C09_rows_are_transpose.
+
 (* ---- not proved; compared on every generated history by the correspondence check ---- *)
-(* missing: c_reorder of each representation under an injective row map (sort of the relabelled entries, heap rebuilt) *)
-Definition C09_order_rows_invisible_full : Prop :=
-  forall p nr mapc m, length (a_i2r m) = nr -> length (a_r2i m) = nr ->
-    (forall r, 0 <= r < Z.of_nat nr -> pget (a_r2i m) (pget (a_i2r m) r) = r /\ 0 <= pget (a_i2r m) r < Z.of_nat nr) ->
-    a_abs p nr (a_order (all_fixed false) mapc p m) = a_abs p nr m.
 (* missing: the invariants (sorted, reduced, zero-free, erased subset) as a matrix-wide invariant kept by every operation,
    from which the whole-matrix refinement follows with the column theorems above *)
 Definition C09_matrix_refinement_full : Prop :=
@@ -164,9 +176,6 @@ Definition C09_matrix_refinement_full : Prop :=
     | None, None => True
     | _, _ => False
     end.
-(* missing: rows as transpose (a_row of the ordered matrix = d_row of its abstraction) *)
-Definition C09_rows_are_transpose_full : Prop :=
-  forall p nr m r, a_sw m = false -> a_row m r = d_row (a_abs p nr m) r.
 (* missing: the union-find model k_* against the class specification dk_* *)
 Definition C09_compression_eq_plain_full : Prop :=
   forall kind p nr es (k : kmat) (d : dmat),
